@@ -337,6 +337,11 @@ class PermutationVariable(Variable):
         return lb.tolist(), ub.tolist()
 
     def correct(self, value: tuple | list | np.ndarray) -> list[int]:
+        # a permutation of the item indexes is already a member of the domain: keep it as is, so that
+        # correcting (or decoding) an already corrected value does not invert it
+        value = np.asarray(value)
+        if value.ndim == 1 and np.array_equal(np.sort(value), np.arange(len(self.items))):
+            return value.astype(int).tolist()
         return np.argsort(value).tolist()
 
     def decode(self, value: tuple | list | np.ndarray) -> Any:
